@@ -170,6 +170,25 @@ func init() {
 						e.violate("C19", "torn-value", "%v %s: key %#x loads %d bytes (%q…), neither the previous (%d bytes) nor the new value", h, label, k, len(got), got[:min(len(got), 12)], len(model[k]))
 					}
 				}
+				// the process restarts on the same directory and carries on: a leftover of
+				// the interrupted operation must not leak into later values
+				if stopped {
+					for _, k := range ks {
+						for _, nv := range [][]byte{fsVal("after", 12), fsVal("after-restart-long", 70)} {
+							v2 := v.clone()
+							_, errs2, _ := runFS(v2, []fsOp{{"save", k, nv, 2}})
+							e.evals++
+							if errs2[0] != nil {
+								e.violate("C19", "save-fails-after-restart", "%v %s, then Save(%#x): %v", h, label, k, errs2[0])
+								continue
+							}
+							vals2, _, err := observe(v2, ks)
+							if err != nil || !bytes.Equal(vals2[k], nv) {
+								e.violate("C19", "leftover-leaks-into-value", "%v %s, then Save(%#x, %d bytes) after the restart: key loads %d bytes %q…", h, label, k, len(nv), len(vals2[k]), vals2[k][:min(len(vals2[k]), 16)])
+							}
+						}
+					}
+				}
 				for _, k := range list {
 					if b, ok := vals[k]; ok && b == nil {
 						e.violate("C19", "list-unloadable", "%v %s: List reports %#x which Load cannot return", h, label, k)
